@@ -19,7 +19,7 @@ def stamp_str(epoch_s):
     return (dt.datetime(1970, 1, 1) + dt.timedelta(seconds=int(epoch_s))).strftime("%Y-%m-%dT%H:%M:%S")
 
 
-def silixa_files(outdir, n, nx, stamps_local, acq_fw, acq_bw, tz="+01:00", double=True, bad_file=None):
+def silixa_files(outdir, n, nx, stamps_local, acq_fw, acq_bw, tz="+01:00", double=True, bad_file=None, tag_offset=0):
     """stamps_local: list of 'YYYY-MM-DDTHH:MM:SS' wall-clock strings in the zone `tz` (the end of the forward measurement)"""
     src = open(f"{D}/double_ended2/channel 1_20180328014052498.xml").read()
     head, rest = src.split("<logData>", 1)
@@ -29,7 +29,7 @@ def silixa_files(outdir, n, nx, stamps_local, acq_fw, acq_bw, tz="+01:00", doubl
     names = []
     for f in range(n):
         nrows = nx - 1 if bad_file == f else nx
-        rows = "".join(f"<data>\n{-5.0 + 0.5 * r:.4f},{tag(f, r, 1)},{tag(f, r, 2)},{tag(f, r, 3)},{tag(f, r, 4)},{tag(f, r, 5)}\n</data>\n" for r in range(nrows))
+        rows = "".join(f"<data>\n{-5.0 + 0.5 * r:.4f},{tag(f + tag_offset, r, 1)},{tag(f + tag_offset, r, 2)},{tag(f + tag_offset, r, 3)},{tag(f + tag_offset, r, 4)},{tag(f + tag_offset, r, 5)}\n</data>\n" for r in range(nrows))
         h = re.sub(r"<endDateTimeIndex>[^<]*</endDateTimeIndex>", f"<endDateTimeIndex>{stamps_local[f]}.000{tz}</endDateTimeIndex>", head)
         h = re.sub(r"<startDateTimeIndex>[^<]*</startDateTimeIndex>", f"<startDateTimeIndex>{stamps_local[f]}.000{tz}</startDateTimeIndex>", h)
         # the acquisition times are the <AcquisitionTime> of the forward (channel 1) and reverse (channel 2) ChannelConfiguration
